@@ -25,77 +25,12 @@ func IndexLoops(info *types.Info, bodies []ast.Node) map[types.Object]ast.Expr {
 					}
 				}
 			case *ast.ForStmt:
-				as, ok := x.Init.(*ast.AssignStmt)
-				if !ok || as.Tok != token.DEFINE || len(as.Lhs) != 1 || len(as.Rhs) != 1 {
-					return true
-				}
-				id, ok := as.Lhs[0].(*ast.Ident)
-				if !ok {
-					return true
-				}
-				if bl, ok := as.Rhs[0].(*ast.BasicLit); !ok || bl.Value != "0" {
-					return true
-				}
-				o := info.Defs[id]
-				if o == nil {
-					return true
-				}
-				cond, ok := x.Cond.(*ast.BinaryExpr)
-				if !ok || cond.Op != token.LSS {
-					return true
-				}
-				if ci, ok := ast.Unparen(cond.X).(*ast.Ident); !ok || info.ObjectOf(ci) != o {
-					return true
-				}
-				call, ok := ast.Unparen(cond.Y).(*ast.CallExpr)
-				if !ok || len(call.Args) != 1 {
-					return true
-				}
-				if fn, ok := call.Fun.(*ast.Ident); !ok || fn.Name != "len" {
-					return true
-				}
-				inc := false
-				switch p := x.Post.(type) {
-				case *ast.IncDecStmt:
-					if pi, ok := p.X.(*ast.Ident); ok && info.ObjectOf(pi) == o && p.Tok == token.INC {
-						inc = true
-					}
-				case *ast.AssignStmt:
-					if len(p.Lhs) == 1 && len(p.Rhs) == 1 && p.Tok == token.ADD_ASSIGN {
-						if pi, ok := p.Lhs[0].(*ast.Ident); ok && info.ObjectOf(pi) == o {
-							if bl, ok := p.Rhs[0].(*ast.BasicLit); ok && bl.Value == "1" {
-								inc = true
-							}
+				if o, bound := counterLoop(info, x); o != nil {
+					if call, ok := ast.Unparen(bound).(*ast.CallExpr); ok && len(call.Args) == 1 {
+						if fn, ok := call.Fun.(*ast.Ident); ok && fn.Name == "len" {
+							out[o] = call.Args[0]
 						}
 					}
-				}
-				if !inc {
-					return true
-				}
-				assigned := false
-				ast.Inspect(x.Body, func(m ast.Node) bool {
-					switch y := m.(type) {
-					case *ast.AssignStmt:
-						for _, l := range y.Lhs {
-							if li, ok := ast.Unparen(l).(*ast.Ident); ok && info.ObjectOf(li) == o {
-								assigned = true
-							}
-						}
-					case *ast.IncDecStmt:
-						if li, ok := ast.Unparen(y.X).(*ast.Ident); ok && info.ObjectOf(li) == o {
-							assigned = true
-						}
-					case *ast.UnaryExpr:
-						if y.Op == token.AND {
-							if li, ok := ast.Unparen(y.X).(*ast.Ident); ok && info.ObjectOf(li) == o {
-								assigned = true
-							}
-						}
-					}
-					return !assigned
-				})
-				if !assigned {
-					out[o] = call.Args[0]
 				}
 			}
 			return true
@@ -125,4 +60,162 @@ func RangeValues(info *types.Info, bodies []ast.Node) map[types.Object]ast.Expr 
 		})
 	}
 	return out
+}
+
+// CountLoops maps the counter of every `for i := 0; i < E; i++` (i not assigned in the body) to E.
+func CountLoops(info *types.Info, bodies []ast.Node) map[types.Object]ast.Expr {
+	out := map[types.Object]ast.Expr{}
+	for _, body := range bodies {
+		ast.Inspect(body, func(n ast.Node) bool {
+			if x, ok := n.(*ast.ForStmt); ok {
+				if o, bound := counterLoop(info, x); o != nil {
+					out[o] = bound
+				}
+			}
+			return true
+		})
+	}
+	return out
+}
+
+// counterLoop recognises `for i := 0; i < E; i++ { … }` with i neither assigned nor address-taken in the body.
+func counterLoop(info *types.Info, x *ast.ForStmt) (types.Object, ast.Expr) {
+	as, ok := x.Init.(*ast.AssignStmt)
+	if !ok || as.Tok != token.DEFINE || len(as.Lhs) != 1 || len(as.Rhs) != 1 {
+		return nil, nil
+	}
+	id, ok := as.Lhs[0].(*ast.Ident)
+	if !ok {
+		return nil, nil
+	}
+	if bl, ok := as.Rhs[0].(*ast.BasicLit); !ok || bl.Value != "0" {
+		return nil, nil
+	}
+	o := info.Defs[id]
+	if o == nil {
+		return nil, nil
+	}
+	cond, ok := x.Cond.(*ast.BinaryExpr)
+	if !ok || cond.Op != token.LSS {
+		return nil, nil
+	}
+	if ci, ok := ast.Unparen(cond.X).(*ast.Ident); !ok || info.ObjectOf(ci) != o {
+		return nil, nil
+	}
+	inc := false
+	switch p := x.Post.(type) {
+	case *ast.IncDecStmt:
+		if pi, ok := p.X.(*ast.Ident); ok && info.ObjectOf(pi) == o && p.Tok == token.INC {
+			inc = true
+		}
+	case *ast.AssignStmt:
+		if len(p.Lhs) == 1 && len(p.Rhs) == 1 && p.Tok == token.ADD_ASSIGN {
+			if pi, ok := p.Lhs[0].(*ast.Ident); ok && info.ObjectOf(pi) == o {
+				if bl, ok := p.Rhs[0].(*ast.BasicLit); ok && bl.Value == "1" {
+					inc = true
+				}
+			}
+		}
+	}
+	if !inc {
+		return nil, nil
+	}
+	assigned := false
+	ast.Inspect(x.Body, func(m ast.Node) bool {
+		switch y := m.(type) {
+		case *ast.AssignStmt:
+			for _, l := range y.Lhs {
+				if li, ok := ast.Unparen(l).(*ast.Ident); ok && info.ObjectOf(li) == o {
+					assigned = true
+				}
+			}
+		case *ast.IncDecStmt:
+			if li, ok := ast.Unparen(y.X).(*ast.Ident); ok && info.ObjectOf(li) == o {
+				assigned = true
+			}
+		case *ast.UnaryExpr:
+			if y.Op == token.AND {
+				if li, ok := ast.Unparen(y.X).(*ast.Ident); ok && info.ObjectOf(li) == o {
+					assigned = true
+				}
+			}
+		}
+		return !assigned
+	})
+	if assigned {
+		return nil, nil
+	}
+	return o, cond.Y
+}
+
+// MadeLens maps every local defined once as make(T, n, …), never assigned again and never address-taken, to n.
+func MadeLens(info *types.Info, bodies []ast.Node) map[types.Object]ast.Expr {
+	cnt := map[types.Object]int{}
+	made := map[types.Object]ast.Expr{}
+	bump := func(e ast.Expr) types.Object {
+		if id, ok := ast.Unparen(e).(*ast.Ident); ok {
+			if o := info.ObjectOf(id); o != nil {
+				cnt[o]++
+				return o
+			}
+		}
+		return nil
+	}
+	for _, body := range bodies {
+		ast.Inspect(body, func(n ast.Node) bool {
+			switch x := n.(type) {
+			case *ast.AssignStmt:
+				for i, l := range x.Lhs {
+					o := bump(l)
+					if o == nil || len(x.Lhs) != len(x.Rhs) {
+						continue
+					}
+					if call, ok := ast.Unparen(x.Rhs[i]).(*ast.CallExpr); ok && len(call.Args) >= 2 {
+						if fid, ok := call.Fun.(*ast.Ident); ok && fid.Name == "make" {
+							if _, isB := info.ObjectOf(fid).(*types.Builtin); isB {
+								made[o] = call.Args[1]
+							}
+						}
+					}
+				}
+			case *ast.ValueSpec:
+				for i, id := range x.Names {
+					o := info.Defs[id]
+					if o == nil {
+						continue
+					}
+					cnt[o]++
+					if i < len(x.Values) && len(x.Names) == len(x.Values) {
+						if call, ok := ast.Unparen(x.Values[i]).(*ast.CallExpr); ok && len(call.Args) >= 2 {
+							if fid, ok := call.Fun.(*ast.Ident); ok && fid.Name == "make" {
+								if _, isB := info.ObjectOf(fid).(*types.Builtin); isB {
+									made[o] = call.Args[1]
+								}
+							}
+						}
+					}
+				}
+			case *ast.IncDecStmt:
+				bump(x.X)
+			case *ast.RangeStmt:
+				if x.Key != nil {
+					bump(x.Key)
+				}
+				if x.Value != nil {
+					bump(x.Value)
+				}
+			case *ast.UnaryExpr:
+				if x.Op == token.AND {
+					bump(x.X)
+				}
+			}
+			return true
+		})
+	}
+	for o := range made {
+		if cnt[o] != 1 {
+			delete(made, o)
+		}
+	}
+	return made
 }
